@@ -6,6 +6,7 @@ import os
 from collections import Counter
 
 import vlib
+from pipes import ext1
 from pipes.vector import concat
 
 # per tier: {N: Vals}
@@ -61,9 +62,8 @@ def model(tier, rep):
         sc, st = vlib.plan_edges(gen, _key, lambda k: k == zero, _call, follow=lambda t: t["op"] == "assign")
         if st["unreachable"]:
             raise vlib.ModelFailure("planner: %d unreachable edges in %s" % (st["unreachable"], name))
-        p = os.path.join(vlib.workdir("scripts"), "array_%s_%d.ndjson" % (tier, n))
-        vlib.write_scripts(sc, p)
-        scripts[n] = (p, len(sc), Counter(s[-1]["op"] for s in sc))
+        vlib.write_scripts(sc, os.path.join(vlib.workdir("scripts"), "array_%s_%d.ndjson" % (tier, n)))
+        scripts[n] = (sc, len(sc), Counter(s[-1]["op"] for s in sc))
         rep.cov["modules"][name].update({"scripts": len(sc), "planner": st, "exported_per_op": dict(per_op)})
         if n == 3:
             rep.sample({"module": name, "script": sc[len(sc) // 2]})
@@ -75,25 +75,30 @@ def model(tier, rep):
 
 
 def _side(impl, exe, scripts, tier, have_sb):
-    tasks, outs, expect = [], [], 0
-    for n, (sp, cnt, per_op) in sorted(scripts.items()):
+    jobs, expect = [], 0
+    for n, (sc, cnt, per_op) in sorted(scripts.items()):
         for e in ELEMS:
-            tp = os.path.join(vlib.workdir("traces"), "array_%s_%s_%d_%s.ndjson" % (impl, e, n, tier))
-            tasks.append(([exe, "replay", e, str(n), sp], tp))
-            outs.append(tp)
+            jobs.append((n, e, sc))
             expect += cnt - (0 if have_sb else per_op.get("set_sb", 0))
-    res = vlib.run_parallel(tasks, par=6)
-    errs = [l for _, err in res for l in err.splitlines()]
+
+    def one(j):
+        n, e, sc = j
+        tp = os.path.join(vlib.workdir("traces"), "array_%s_%s_%d_%s.ndjson" % (impl, e, n, tier))
+        return tp, ext1.replay(lambda sp: [exe, "replay", e, str(n), sp], sc, tp, "array_%s_%s_%d_%s" % (impl, e, n, tier), chunk=20000, par=2)
+    from concurrent.futures import ThreadPoolExecutor
+    with ThreadPoolExecutor(max_workers=5) as ex:
+        res = list(ex.map(one, jobs))
+    outs = [tp for tp, _ in res]
+    errs = [l for _, r in res for l in r["stderr"]]
     unsupported = sorted({l for l in errs if l.startswith("UNSUPPORTED")})
     leaks = [l for l in errs if l.startswith("SUMMARY") and not l.endswith("live_delta=0")]
-    got = 0
-    for tp in outs:
-        got += sum(1 for _ in open(tp, "rb"))
-    if got != expect:                                   # vacuity guard: one event per script
+    ntraps = sum(len(r["traps"]) for _, r in res)
+    got = sum(r["lines"] - r["markers"] for _, r in res)
+    if not ntraps and got != expect:                    # vacuity guard: one event per script
         raise vlib.ModelFailure("array driver (%s): %d events for %d drivable scripts" % (impl, got, expect))
     merged = concat(outs, os.path.join(vlib.workdir("traces"), "array_%s_merged_%s" % (impl, tier)), 4)
     tv = vlib.tv_parallel("ArrayTrace.tla", "ArrayTrace.cfg", merged, "array_tv_%s_%s" % (impl, tier), par=4, heap="2g")
-    return tv, unsupported, leaks, len(outs)
+    return tv, unsupported, leaks, ntraps
 
 
 def pipeline(tier, rep, calibrate=None):
@@ -109,7 +114,7 @@ def pipeline(tier, rep, calibrate=None):
     with ThreadPoolExecutor(max_workers=2) as ex:
         fe = ex.submit(_side, "etl", bins[0], scripts, tier, have[1])
         fs = ex.submit(_side, "std", bins[1], scripts, tier, True) if calibrate else None
-        tv, unsup, leaks, ntr = fe.result()
+        tv, unsup, leaks, ntraps = fe.result()
         ctv, cunsup, cleaks, _ = fs.result() if fs else (None, [], [], 0)
     if calibrate:
         if ctv["deviations"]:
@@ -122,6 +127,77 @@ def pipeline(tier, rep, calibrate=None):
     rep.add_tv("Array", tv, sum(c for _, c, _ in scripts.values()) * len(ELEMS))
     rep.cov["modules"]["Array"]["not_drivable"] = unsup + ["%s: does not compile" % PROBES[n] for n in sorted(PROBES) if not have[n]]
     rep.cov["modules"]["Array"]["probes"] = {PROBES[n]: have[n] for n in PROBES}
+    rep.cov["modules"]["Array"]["crashes_contained"] = ntraps
     if leaks:
         rep.notes.append({"live_count_imbalance": leaks})
+    return tv
+
+
+# ---------------------------------------------------------------------------------------------------------------
+# dynamic_array (spec/DynArray.tla, DynArrayOps.tla, DynArrayTrace.tla, harness/dynarray_driver.cpp)
+# ---------------------------------------------------------------------------------------------------------------
+DYN_TIERS = {"quick": {"Ns": "{0, 1, 2}", "Vals": "{1, 2}"}, "thorough": {"Ns": "{0, 1, 2, 3}", "Vals": "{1, 2, 3}"}}
+DYN_OPS = ["ctor_default", "ctor_n", "ctor_fill", "move_ctor", "move_assign", "dtor"]
+
+
+def _dyn_side(impl, exe, sc, tier):
+    ncalls = sum(len(s) for s in sc)
+    res = []
+    for e in ELEMS:
+        tp = os.path.join(vlib.workdir("traces"), "dynarray_%s_%s_%s.ndjson" % (impl, e, tier))
+        res.append((tp, ext1.replay(lambda sp: [exe, "replay", e, sp], sc, tp, "dynarray_%s_%s_%s" % (impl, e, tier))))
+    outs = [tp for tp, _ in res]
+    unsupported = sorted({l for _, r in res for l in r["stderr"] if l.startswith("UNSUPPORTED")})
+    ntraps = sum(len(r["traps"]) for _, r in res)
+    for tp, r in res:
+        if not unsupported and not r["traps"] and r["lines"] != len(sc) + ncalls:
+            raise vlib.ModelFailure("dynarray driver (%s): %d lines for %d scripts with %d calls" % (impl, r["lines"], len(sc), ncalls))
+    tv = vlib.tv_parallel("DynArrayTrace.tla", "DynArrayTrace.cfg", outs, "dynarray_tv_%s_%s" % (impl, tier), par=2, heap="1g")
+    return tv, unsupported, ntraps
+
+
+def dyn_pipeline(tier, rep, calibrate=None):
+    from concurrent.futures import ThreadPoolExecutor
+    if calibrate is None:
+        calibrate = os.environ.get("VERIF_CALIBRATE", "1") != "0"
+    r = vlib.tlc_mc("DynArray.tla", "DynArray.cfg", "dynarray_mc_%s" % tier, workers=2, heap="1g", constants=DYN_TIERS[tier])
+    rep.add_mc("DynArray", r)
+    gen = r["gen"]
+    per_op = Counter(t["op"] for t in gen)
+    missing = [op for op in DYN_OPS if not per_op.get(op)]
+    if missing:
+        raise vlib.ModelFailure("DynArray: no transition exported for %s" % missing)
+    dead = {"live": False, "els": []}
+    init = json.dumps([{"a": dead, "b": dead}, []], sort_keys=True)
+    # nodes are (observable state, set of moved-from objects); path prefixes avoid move assignment where they can
+    # (a defect there must not mask the edges planned behind it)
+    dkey = lambda t, w: json.dumps([t[w], sorted(t["premv" if w == "pre" else "postmv"])], sort_keys=True)
+    call = lambda t: {"op": t["op"], "o": t["o"], "x": t["x"]}
+    sc, st = vlib.plan_edges(gen, dkey, lambda k: k == init, call, follow=lambda t: t["op"] != "move_assign")
+    if st["unreachable"]:
+        sc, st = vlib.plan_edges(gen, dkey, lambda k: k == init, call)
+    if st["unreachable"]:
+        raise vlib.ModelFailure("planner: %d unreachable edges in DynArray" % st["unreachable"])
+    sp = os.path.join(vlib.workdir("scripts"), "dynarray_%s.ndjson" % tier)
+    vlib.write_scripts(sc, sp)
+    rep.cov["modules"]["DynArray"].update({"scripts": len(sc), "planner": st, "exported_per_op": dict(per_op)})
+    jobs = [dict(src="dynarray_driver.cpp", out="dynarray_etl")]
+    if calibrate:
+        jobs.append(dict(src="dynarray_driver.cpp", out="dynarray_std", flags=["-DVH_STD"], include_repo=False))
+    bins = vlib.build_many(jobs)
+    with ThreadPoolExecutor(max_workers=2) as ex:
+        fe = ex.submit(_dyn_side, "etl", bins[0], sc, tier)
+        fs = ex.submit(_dyn_side, "std", bins[1], sc, tier) if calibrate else None
+        tv, unsup, ntraps = fe.result()
+        ctv, cunsup, _ = fs.result() if fs else (None, [], 0)
+    if calibrate:
+        if ctv["deviations"]:
+            d = ctv["deviations"][0]
+            raise vlib.ModelFailure("calibration: std::vector as a fixed owning array deviates from DynArray spec: %s %s"
+                                    % (d["kind"], json.dumps(d.get("ev"))[:700]))
+        if cunsup:
+            raise vlib.ModelFailure("calibration build lacks operations: %s" % cunsup)
+        rep.cov["modules"]["DynArray"]["calibration_events_std"] = ctv["events"]
+    rep.add_tv("DynArray", tv, len(sc) * len(ELEMS))
+    rep.cov["modules"]["DynArray"].update({"not_drivable": unsup, "crashes_contained": ntraps})
     return tv
